@@ -317,6 +317,7 @@ type Worker struct {
 	sharedInit  map[*ssa.Package]bool
 	inInit      int
 	knownPanics []knownPanic
+	env         map[string]Str
 	allowDeadlock bool
 	pathsRun    int
 	timers      map[*Value]*timerInfo
@@ -361,6 +362,7 @@ func (w *Worker) runPath(prefix []Decision, startModel map[string]uint64) *Path 
 	w.globals = map[*ssa.Global]*Value{}
 	w.initDone = map[*ssa.Package]bool{}
 	w.knownPanics = nil
+	w.env = nil
 	w.allowDeadlock = false
 	w.timers = nil
 	w.ptrIDs = nil
